@@ -19,6 +19,7 @@ def gen_cases(rng, tier, ctx):
     cs = gen.encoder_cases(rng, tier, n)
     cs += gen.boundary_cases(rng, tier, per_cap=2 if tier == 'quick' else 6)
     cs += gen.constant_cases(rng, tier)
+    cs += gen.prefix_cases(rng, tier)
     # padding sweep
     for i in range(48):
         for d in ([], [65], [49, 50, 51, 52], [200]):
